@@ -676,6 +676,98 @@ theorem create_tmp_taken {r : Run} (h : ∃ t, r.conn.working.tmp = some t) :
     | none => exact absurd rfl hne
     | some e => exact ⟨by simp, hconn⟩
 
+/-! ## nothing before DROP of the original touches the original -/
+
+/-- every statement issued before the first `DROP <original>` has the temporary table as its only target -/
+def PreDropSafe (tr : List Stmt) : Prop :=
+  (∀ s ∈ tr, safe s = true) ∨ ∃ pre rest, tr = pre ++ Stmt.dropOld :: rest ∧ ∀ s ∈ pre, safe s = true
+
+theorem PreDropSafe.snoc_safe {tr : List Stmt} {s : Stmt} (h : PreDropSafe tr) (hs : safe s = true) : PreDropSafe (tr ++ [s]) := by
+  rcases h with h | ⟨pre, rest, rfl, hp⟩
+  · left; intro x hx
+    simp only [List.mem_append, List.mem_singleton] at hx
+    rcases hx with hx | rfl
+    · exact h x hx
+    · exact hs
+  · right; exact ⟨pre, rest ++ [s], by simp, hp⟩
+
+theorem PreDropSafe.append_after_drop {pre rest : List Stmt} (l : List Stmt) (hp : ∀ s ∈ pre, safe s = true) :
+    PreDropSafe (pre ++ Stmt.dropOld :: rest ++ l) :=
+  .inr ⟨pre, rest ++ l, by simp, hp⟩
+
+theorem elseBranch_trace_ext (r : Run) : ∃ l, (elseBranch ct fault p r).1.trace = r.trace ++ l := by
+  unfold elseBranch
+  cases hst : step ct fault r .renameTmp with
+  | mk r' e' =>
+    have ht : r'.trace = r.trace ++ [.renameTmp] := by
+      have := step_trace ct fault r .renameTmp; rw [hst] at this; exact this
+    cases e' with
+    | some e => exact ⟨[.renameTmp], ht⟩
+    | none =>
+      simp only
+      split
+      · exact ⟨[.renameTmp], ht⟩
+      · rename_i ixs _
+        obtain ⟨k, hk⟩ := execAll_trace_take (ct := ct) (fault := fault) (ixs.map .createIndex) r'
+        exact ⟨.renameTmp :: (ixs.map Stmt.createIndex).take k, by rw [hk, ht]; simp⟩
+
+/-- **The recreate's statement list.** Started on an empty trace, `_create` first issues `CREATE TABLE _alembic_tmp_<t>`, and every
+statement before the first `DROP <original>` targets the temporary table only. -/
+theorem create_trace_shape {r : Run} (hr : r.trace = []) :
+    (create ct fault p r).1.trace.head? = some (.createTmp p.newSchema) ∧ PreDropSafe (create ct fault p r).1.trace := by
+  unfold create
+  obtain ⟨k, hk⟩ := execAll_cons_trace (ct := ct) (fault := fault) (p.tmpIndexes.map Stmt.createTmpIndex) r (.createTmp p.newSchema)
+  rw [hr, List.nil_append] at hk
+  have hsafe1 : ∀ s ∈ Stmt.createTmp p.newSchema :: (p.tmpIndexes.map Stmt.createTmpIndex).take k, safe s = true := by
+    intro s hs
+    simp only [List.mem_cons] at hs
+    rcases hs with rfl | hs
+    · rfl
+    · have := List.mem_of_mem_take hs
+      simp only [List.mem_map] at this
+      obtain ⟨ix, _, rfl⟩ := this; rfl
+  cases hst : execAll ct fault r (.createTmp p.newSchema :: p.tmpIndexes.map .createTmpIndex) with
+  | mk r1 e1 =>
+    rw [hst] at hk
+    simp only at hk
+    cases e1 with
+    | some e => simp only; rw [hk]; exact ⟨rfl, .inl hsafe1⟩
+    | none =>
+      simp only
+      unfold tryBlock
+      cases htry : execAll ct fault r1 [.insertSelect p.feeds, .dropOld] with
+      | mk r2 e2 =>
+        obtain ⟨k2, hk2⟩ := execAll_cons_trace (ct := ct) (fault := fault) [Stmt.dropOld] r1 (.insertSelect p.feeds)
+        rw [htry] at hk2
+        simp only at hk2
+        have hpre : ∀ s ∈ r1.trace ++ [Stmt.insertSelect p.feeds], safe s = true := by
+          intro s hs
+          simp only [List.mem_append, List.mem_singleton] at hs
+          rcases hs with hs | rfl
+          · rw [hk] at hs; exact hsafe1 s hs
+          · rfl
+        have h2 : PreDropSafe r2.trace := by
+          rw [hk2]
+          cases k2 with
+          | zero => left; simpa using hpre
+          | succ n =>
+            right
+            exact ⟨r1.trace ++ [.insertSelect p.feeds], [], by simp, hpre⟩
+        have hhead2 : r2.trace.head? = some (.createTmp p.newSchema) := by rw [hk2, hk]; rfl
+        cases e2 with
+        | some e =>
+          simp only
+          rw [cleanup_trace]
+          exact ⟨by rw [hk2, hk]; rfl, h2.snoc_safe rfl⟩
+        | none =>
+          simp only
+          have hfull := execAll_none_trace _ _ _ htry
+          obtain ⟨l, hl⟩ := elseBranch_trace_ext (ct := ct) (fault := fault) (p := p) r2
+          rw [hl, hfull]
+          refine ⟨by rw [hk]; rfl, ?_⟩
+          have := PreDropSafe.append_after_drop (pre := r1.trace ++ [.insertSelect p.feeds]) (rest := []) l hpre
+          simpa using this
+
 /-! ## a fault at statement `k ≤ index(DROP original)` -/
 
 theorem create_intact_of_fault {r : Run} {k : Nat} (hi : Intact t0 r.conn) (hn : r.n = 0) (hk : fault = some k)
